@@ -129,7 +129,39 @@ class PersistSystem(c07.LinkSystem):
         return vs[:4]
 
 
+def fan_in_cases():
+    """A module fed by FOUR sources (plus one extra link of the last source), with every subset of the four links freed
+    again: several freed slots in the middle of one table, next to tables of other modules that carry slot chunks."""
+    import rv.api as rv
+
+    vs, n = [], 0
+    for pre in (False, True):
+        for post in (False, True):
+            for mask in range(16):
+                n += 1
+                p = rv.Project()
+                a, b, c, d, mix, side = [p.new_module(rv.m.Amplifier) for _ in range(6)]
+                if pre:
+                    p.connect(d, side)
+                p.connect([a, b, c, d], mix)
+                p.connect(mix, p.output)
+                for i, src in enumerate((a, b, c, d)):
+                    if mask >> i & 1:
+                        p.connect(src, ~mix)
+                if post:
+                    p.connect(side, mix)
+                    p.connect(a, side)
+                _n, v = persistence_checks(p)
+                for x in v[:3]:
+                    x["case"] = {"fan_in": [pre, post, mask]}
+                    x["key"] = dict(x["key"], layout="fan-in")
+                vs += v[:3]
+    return n, vs[:8]
+
+
 def run_case(case):
+    if "fan_in" in case:
+        return [v for v in fan_in_cases()[1] if v["case"] == case]
     hist = case["history"]
     sysm = PersistSystem(hist, case.get("holes", (0, 0, 0)))
     L = sysm.fresh()
@@ -161,6 +193,8 @@ def run(ctx):
                           op_indices=rotate(range(len(A1)), ctx.seed), chunk=64, verify_chunk=64)
         ctx.add(r3.violations)
         r3s.append(r3)
+    n_fan, v_fan = fan_in_cases()
+    ctx.add(v_fan)
     # how many file variants one state produces (measured on a sample state for the evidence)
     sysm = PersistSystem(A1)
     L = sysm.fresh()
@@ -178,7 +212,7 @@ def run(ctx):
         "A1": {"depth_completed": r1.depth_completed, "states": r1.states, "states_round_tripped": r1.replay_verified + 1},
         "full_alphabet": {"ops": len(full), "depth_completed": r2.depth_completed, "states": r2.states,
                           "states_round_tripped": r2.replay_verified + 1},
-        "file_variants_of_sample_state": nvar,
+        "file_variants_of_sample_state": nvar, "fan_in_layouts": n_fan,
         "samples": [{"history": [A1[1], A1[6], A1[20]]},
                     {"history": [{"op": "connect", "f": 1, "t": 2}, {"op": "connect", "f": 3, "t": 2},
                                  {"op": "connect", "f": ["~", 1], "t": 2}]}],
